@@ -12,7 +12,10 @@ package main
 //	        stored), never discarded.
 
 import (
+	"fmt"
 	"go/constant"
+	"go/token"
+	"go/types"
 
 	"golang.org/x/tools/go/ssa"
 )
@@ -217,5 +220,98 @@ func (c *Ctx) checkMacroDefinitionTokens(r *Report, rule string) {
 	for _, n := range []string{"ASSIGN", "DEFINE"} {
 		r.Check(seen[want[n]], rule, ssaFuncName(fn), "a macro literal assigned with the "+n+" token is a definition", c.Pos(fn.Pos()),
 			"isAssign does not test the "+n+" token: `m "+map[string]string{"ASSIGN": "=", "DEFINE": ":="}[n]+" macro(...)` stays in the program and is evaluated (unknown node type *ast.MacroLiteral), its calls are never expanded")
+	}
+}
+
+// checkModifyCallbacksNilSafe: rule C13.R12.
+//
+// ast.Modify hands every child of a node to the callback, absent ones included (the open-ended slice x[1:] is a
+// `:` node whose right child is nil, a lambda has no name), and a nil interface has no methods: invoking one
+// (or asserting a concrete type without the comma-ok form) on the callback's node parameter panics. In every
+// function or closure handed to Modify / ModifyNoOk, and in the functions of the module that are handed the
+// node as is, a method call or single-result type assertion on that parameter is dominated by a nil test
+// or lies on the true edge of a comma-ok assertion of it.
+func (c *Ctx) checkModifyCallbacksNilSafe(r *Report, rule string) {
+	modify, modifyNoOk := c.Fn("ast", "Modify"), c.Fn("ast", "ModifyNoOk")
+	n := 0
+	var check func(fn *ssa.Function, p *ssa.Parameter, depth int, via string)
+	seen := map[*ssa.Parameter]bool{}
+	check = func(fn *ssa.Function, p *ssa.Parameter, depth int, via string) {
+		if seen[p] || depth > 3 || p.Referrers() == nil {
+			return
+		}
+		seen[p] = true
+		guarded := func(b *ssa.BasicBlock) bool {
+			for _, cc := range controlling(b) {
+				switch x := cc.Cond.(type) {
+				case *ssa.BinOp:
+					if (x.X == ssa.Value(p) && isNilConst(x.Y)) || (x.Y == ssa.Value(p) && isNilConst(x.X)) {
+						if (x.Op == token.NEQ && cc.Edge == 0) || (x.Op == token.EQL && cc.Edge == 1) {
+							return true
+						}
+					}
+				case *ssa.Extract:
+					if ta, ok := x.Tuple.(*ssa.TypeAssert); ok && ta.CommaOk && ta.X == ssa.Value(p) && x.Index == 1 && cc.Edge == 0 {
+						return true
+					}
+				}
+			}
+			return false
+		}
+		k := 0
+		for _, ref := range *p.Referrers() {
+			switch x := ref.(type) {
+			case *ssa.Call:
+				cc := x.Common()
+				if cc.IsInvoke() && cc.Value == ssa.Value(p) {
+					n++
+					k++
+					r.Check(guarded(x.Block()), rule, ssaFuncName(fn), fmt.Sprintf("method call #%d on the node handed over by Modify is behind a nil test", k), c.Pos(x.Pos()),
+						"the callback invokes "+cc.Method.Name()+"() on its node parameter"+via+" without a nil test (or a successful comma-ok assertion): Modify hands over absent children too (the right side of x[1:] is nil), so a quoted template or macro body containing an open-ended slice panics with a nil pointer dereference")
+					continue
+				}
+				if callee := cc.StaticCallee(); callee != nil && isModuleSSA(callee) && len(callee.Blocks) > 0 && !guarded(x.Block()) {
+					for i, a := range cc.Args {
+						if a == ssa.Value(p) && i < len(callee.Params) && callee.Object() != types.Object(modify) && callee.Object() != types.Object(modifyNoOk) {
+							check(callee, callee.Params[i], depth+1, " (handed on by "+ssaFuncName(fn)+")")
+						}
+					}
+				}
+			case *ssa.TypeAssert:
+				if !x.CommaOk && x.X == ssa.Value(p) {
+					n++
+					k++
+					r.Check(guarded(x.Block()), rule, ssaFuncName(fn), fmt.Sprintf("type assertion #%d on the node handed over by Modify is behind a nil test", k), c.Pos(x.Pos()),
+						"the callback asserts a concrete type on its node parameter"+via+" without the comma-ok form or a nil test: Modify hands over absent children too, and the assertion panics on nil")
+				}
+			}
+		}
+	}
+	ncb := 0
+	for _, fn := range c.ModuleSSAFuncs() {
+		for _, ci := range callsIn(fn, modify, modifyNoOk) {
+			args := ci.Common().Args
+			if len(args) < 2 {
+				continue
+			}
+			var cb *ssa.Function
+			switch f := args[1].(type) {
+			case *ssa.MakeClosure:
+				cb, _ = f.Fn.(*ssa.Function)
+			case *ssa.Function:
+				cb = f
+			}
+			if cb == nil || len(cb.Params) == 0 || cb.Pkg == nil || shortPkg(cb.Pkg.Pkg) == "ast" {
+				continue // Modify's own recursion passes its parameter f on
+			}
+			ncb++
+			check(cb, cb.Params[len(cb.Params)-1], 0, "")
+		}
+	}
+	if ncb < 3 {
+		r.Undecided("%s: only %d callbacks handed to ast.Modify found (macro expansion, unquote, register rewriting expected)", rule, ncb)
+	}
+	if n == 0 {
+		r.OkWhy(rule, "eval", "no method call on the raw node parameter of a Modify callback", "", "every callback goes through type switches / comma-ok assertions")
 	}
 }
